@@ -25,7 +25,9 @@ func (s *Server) tagList(repoStr string) http.HandlerFunc {
 			s.log.Info("failed to get repo", "err", err, "repo", repoStr)
 			return
 		}
+		s.indexMu.RLock()
 		index, err := repo.IndexGet()
+		s.indexMu.RUnlock()
 		repo.Done()
 		if err != nil {
 			// TODO: handle different errors (perm denied, not found, internal server error)
